@@ -222,6 +222,18 @@ func Schemas(thorough bool) (schemas []M, leaves []M, comps M) {
 		M{"type": "integer", "enum": []any{1, 5, 10}, "minimum": 3},
 		M{"allOf": []any{M{"type": "object", "required": []string{"r"}, "properties": M{"p": small[0]}}, M{"type": "object", "properties": M{"q": small[1]}}, M{"type": "object", "properties": M{"r": small[2]}}}},
 	)
+	// a variant that has no member of its own in one sum (it is the default there) and has one in
+	// another sum; keywords written next to allOf; a named schema without keywords as a member
+	comps["VA"] = M{"type": "object", "required": []string{"a", "b"}, "properties": M{"a": small[0], "b": small[1]}, "additionalProperties": false}
+	comps["VD"] = M{"type": "object", "required": []string{"a", "b", "d"}, "properties": M{"a": small[0], "b": small[1], "d": small[2]}}
+	comps["VE"] = M{"type": "object", "required": []string{"a"}, "properties": M{"a": small[0]}, "additionalProperties": false}
+	comps["Anything"] = M{}
+	schemas = append(schemas,
+		M{"oneOf": []any{cref("VA"), cref("VD")}}, M{"oneOf": []any{cref("VA"), cref("VE")}},
+		M{"allOf": []any{cref("UB")}, "type": "object", "required": []string{"bark"}, "properties": M{"bark": small[0]}},
+		M{"allOf": []any{M{"type": "object", "properties": M{"p": small[0]}}}, "type": "object", "required": []string{"p"}, "minProperties": 1},
+		M{"type": "object", "properties": M{"anything": cref("Anything"), "p": small[0]}},
+	)
 	schemas = append(schemas, M{"$ref": "#/components/schemas/Tree"})
 	if thorough {
 		// depth 3: every wrapper composition over the small leaves
